@@ -32,6 +32,29 @@
    for one entry point per calling convention (LineEPNames), //go:noinline chains, skip 0..2 given
    by SetSkip / WithSkip / not at all, chains of skip..2 wrappers.
 
+   ua (user attribute named like the built-in member): the property speaks of what is "reported in
+   a record" - of the record as a READER sees it.  A record is a list of members; `caller` is the
+   name of the built-in member, and nothing keeps a program from using that name for an attribute
+   of its own: the name of the calling service as a plain value, or a group caller{file, line,
+   function} relayed from a client - given with the record ("rec-"), carried by the logger
+   (SetAttrs / Set: "log-") or by a log/slog handler (Logger.With: "hdl-").  Readers of JSON
+   (encoding/json and every other common decoder) and the logfmt tokenizer of this check take the
+   LAST member of a name.  Written(c, D) is the order in which the members named `caller` (logfmt:
+   caller.file / caller.line / caller.function) appear in the encoded record - "user" for the
+   program's attribute, "site" for the built-in member; Collides(c) says when the two share a
+   name (JSON: always; logfmt: only a group, whose members become caller.file ...; the console
+   line has no names - the call site is the tail of the line); Seen(c) is what a last-wins reader
+   gets for the caller field: it MUST be the call site (CallerSurvivesUserAttr, and
+   AttributionAtIssuer is stated on Seen), i.e. the built-in member comes after every attribute
+   of its name (or such an attribute is dropped / renamed - the statement leaves that open, the
+   reader sees the call site either way).  UA cells exist for UAEPNames (one entry point per
+   calling convention that can carry the attribute), all formats, root / default-root loggers,
+   //go:noinline chains, skip 0..2 via none / SetSkip / WithSkip, chains of skip..2 wrappers.
+   time, level, msg and logger are reserved names too, but C14 speaks of the caller field only;
+   what a top-level attribute of THOSE names does to a record is outside the stated domain of
+   C04 / C05 ("all keys other than the reserved field names", Encoder!InDomain) and inside C06's
+   (Encoder.tla, top-key cells).
+
    one cell per state (Init picks an entry point and logger kind, Next any cell of that pair),
    evaluates the invariants below in every cell and exports the table (Export); the Go worker
    issues every cell on the real library and CallerTrace.tla validates what the records really
@@ -54,7 +77,10 @@
 
    PROPERTY (C14) AS INVARIANTS
      AttributionAtIssuer   sentence 1+2: reported frame = user frame `skip` (0 = the issuing
-                           statement) for every entry point / format / kind / inlining
+                           statement) for every entry point / format / kind / inlining - "reported"
+                           = what a last-wins reader of the record gets (Seen)
+     CallerSurvivesUserAttr  an attribute named caller (plain or group; record, logger, handler)
+                           changes nothing: Seen(cell) = Seen(the same cell without it)
      SkipMovesExactlyN     sentence 2: skip n moves the attribution exactly n frames up from
                            where skip 0 points, never into or across library frames
      FormatIndependent, KindIndependent, InlineIndependent, ViaIndependent, SiteIndependent
@@ -67,7 +93,10 @@
    AttributionAtIssuer (non-vacuity), and the trace specification uses AttrD(c, {d}) to
    recognise a listed known finding.
      BridgeIgnoresSkip     the std-log bridge (NewLogLogger) strips a fixed number of frames and
-                           never looks at the logger's skip count.                              *)
+                           never looks at the logger's skip count.
+     CallerBeforeAttrs     JSON / logfmt write the built-in caller member in front of the
+                           attributes ("fixed members first"): an attribute named caller then
+                           follows it and is what a last-wins reader reports.                   *)
 EXTENDS Integers, Sequences, FiniteSets, SequencesExt, TLC, Json
 
 CONSTANTS MaxDepthInl,   \* deepest wrapper chain of inlinable wrappers
@@ -79,7 +108,7 @@ CONSTANTS MaxDepthInl,   \* deepest wrapper chain of inlinable wrappers
 VARIABLES cell,          \* the cell under consideration
           phase          \* "seed": an (entry point, kind) pair was picked; "cell": a full cell
 
-AllDevs == {"BridgeIgnoresSkip"}
+AllDevs == {"BridgeIgnoresSkip", "CallerBeforeAttrs"}
 
 Larger(a, b) == IF a > b THEN a ELSE b
 MaxSkip == Larger(MaxDepthInl, MaxDepthNo)
@@ -194,24 +223,47 @@ LineDepth == 2                    \* skip <= depth <= LineDepth: a wrapper repor
 LineShapes == {sh \in ShapesNo : sh[1] \in {"none", "Set", "With"} /\ sh[2] <= MaxLineSkip /\ sh[4] <= LineDepth}
 LineEPKinds == {ek \in EPKinds : ek[1].name \in LineEPNames /\ ek[2] \in LineKinds(ek[1].fam)}
 
+(* attributes named like the built-in member: where the program put it x plain value / group with the
+   members file, line, function.  The record itself can carry one only where the entry point takes
+   attributes (not printf, not the std-log bridge), a handler only in the log/slog front end. *)
+UAttrs == {"rec-plain", "rec-group", "log-plain", "log-group", "hdl-plain", "hdl-group"}
+UAWhere(u) == CASE u \in {"rec-plain", "rec-group"} -> "rec" [] u \in {"log-plain", "log-group"} -> "log"
+                [] u \in {"hdl-plain", "hdl-group"} -> "hdl" [] OTHER -> "none"
+UAGroup(u) == u \in {"rec-group", "log-group", "hdl-group"}
+UAOf(f) == {u \in UAttrs : /\ UAWhere(u) = "rec" => f \in {"verb", "ctx", "attrs", "pkgverb", "adapter"}
+                           /\ UAWhere(u) = "hdl" => f = "adapter"}
+UAEPNames == {"Info", "InfoContext", "LogAttrs", "Infof", "slog.Warn", "logslog.Info", "logslog.LogAttrs", "stdlog.Print"}
+UAEPKinds == {ek \in EPKinds : ek[1].name \in UAEPNames /\ ek[2] \in LineKinds(ek[1].fam)}
+
 (* the table; an operator with a parameter because TLC evaluates every parameterless constant
    definition eagerly, once per worker, and this one is large *)
 GoCellsOver(eks) == {[ep |-> ek[1].name, fam |-> ek[1].fam, fmt |-> f, kind |-> ek[2], inl |-> ns[1],
-                      via |-> ns[2][1], skip |-> ns[2][2], other |-> ns[2][3], depth |-> ns[2][4], site |-> "go"] :
+                      via |-> ns[2][1], skip |-> ns[2][2], other |-> ns[2][3], depth |-> ns[2][4], site |-> "go",
+                      ua |-> "none"] :
                           ek \in eks, f \in Formats, ns \in ShapesAll}
 LineCellsOver(eks) == {[ep |-> ek[1].name, fam |-> ek[1].fam, fmt |-> f, kind |-> ek[2], inl |-> FALSE,
-                        via |-> sh[1], skip |-> sh[2], other |-> sh[3], depth |-> sh[4], site |-> s] :
+                        via |-> sh[1], skip |-> sh[2], other |-> sh[3], depth |-> sh[4], site |-> s, ua |-> "none"] :
                             ek \in eks \cap LineEPKinds, f \in Formats, sh \in LineShapes, s \in LineSites}
-(* (the two halves are never united: TLC enumerates a union by testing every element of the second
-   set for membership in the first) *)
+UACellsOver(eks) == {[ep |-> ek[1].name, fam |-> ek[1].fam, fmt |-> f, kind |-> ek[2], inl |-> FALSE,
+                      via |-> sh[1], skip |-> sh[2], other |-> sh[3], depth |-> sh[4], site |-> "go", ua |-> u] :
+                          ek \in eks \cap UAEPKinds, f \in Formats, sh \in LineShapes, u \in UAttrs}
+(* (the parts are never united: TLC enumerates a union by testing every element of the second
+   set for membership in the first; UACellsOver ranges over all of UAttrs and is filtered by IsCell
+   where it is used) *)
+UACells(eks) == {c \in UACellsOver(eks) : c.ua \in UAOf(c.fam)}
 CellsOver(eks) == GoCellsOver(eks)
 NCells == Cardinality(EPKinds) * Cardinality(Formats) * Cardinality(ShapesAll)
           + Cardinality(LineEPKinds) * Cardinality(Formats) * Cardinality(LineShapes) * Cardinality(LineSites)
+          + Cardinality(UACells(EPKinds))
 
 IsCell(c) ==
     /\ [name |-> c.ep, fam |-> c.fam] \in EPs
     /\ c.fmt \in Formats /\ c.kind \in KindsOf(c.fam) /\ c.inl \in BOOLEAN
     /\ <<c.via, c.skip, c.other, c.depth>> \in ShapesOf(c.inl)
+    /\ \/ c.ua = "none"
+       \/ /\ c.ua \in UAOf(c.fam) /\ c.site = "go" /\ ~c.inl
+          /\ <<[name |-> c.ep, fam |-> c.fam], c.kind>> \in UAEPKinds
+          /\ <<c.via, c.skip, c.other, c.depth>> \in LineShapes
     /\ \/ c.site = "go"
        \/ /\ c.site \in LineSites /\ ~c.inl
           /\ <<[name |-> c.ep, fam |-> c.fam], c.kind>> \in LineEPKinds
@@ -234,7 +286,16 @@ CallersArg(c, D) == Const(c.fam) + Extra(c, D) + (IF ViaGetpc(c.fam) THEN 1 ELSE
 AttrD(c, D) == LET s == Stack(c)  a == CallersArg(c, D) + 1      \* sequences are 1-based
                IN IF a <= Len(s) THEN s[a] ELSE NoFrame
 
-Attributed(c) == AttrD(c, Devs)
+(* The record as a reader sees it.  Members named like the caller field, in the order they are
+   written: the attributes of the program come between msg and the built-in caller member. *)
+UserVal == [k |-> "attr", i |-> -1]                  \* the program's attribute, not a frame
+Collides(c) == c.ua # "none" /\ (c.fmt = "json" \/ (c.fmt = "logfmt" /\ UAGroup(c.ua)))
+Written(c, D) == IF ~Collides(c) THEN <<"site">>
+                 ELSE IF "CallerBeforeAttrs" \in D THEN <<"site", "user">> ELSE <<"user", "site">>
+LastOf(q) == q[Len(q)]
+SeenD(c, D) == IF LastOf(Written(c, D)) = "site" THEN AttrD(c, D) ELSE UserVal
+
+Attributed(c) == SeenD(c, Devs)
 
 Want(c) == UserFrame(c.skip)
 
@@ -267,6 +328,8 @@ InlineIndependent == (cell.depth = cell.skip /\ (cell.inl \/ cell.skip > MaxDept
 ViaIndependent == cell.via = "Set" =>
     \A v \in Vias, o \in OtherChoices(cell.skip) \cup {cell.skip} :
         LET c == [cell EXCEPT !.via = v, !.other = o] IN IsCell(c) => Attributed(c) = Attributed(cell)
+(* an attribute of the program that is named like the built-in member does not matter *)
+CallerSurvivesUserAttr == cell.ua # "none" => Attributed(cell) = Attributed([cell EXCEPT !.ua = "none"])
 (* what the source file of the chain's frames is called does not matter *)
 SiteIndependent == cell.site = "go" =>
     \A s \in LineSites : LET c == [cell EXCEPT !.site = s] IN IsCell(c) => Attributed(c) = Attributed(cell)
@@ -279,21 +342,26 @@ InitFams(F) == /\ phase = "seed"
                /\ cell \in {CHOOSE c \in CellsFor(ek[1], ek[2]) : TRUE : ek \in {x \in EPKinds : x[1].fam \in F}}
 Init == InitFams(Families)
 InitBridge == InitFams({"bridge"})       \* witness runs for the bridge deviation
+InitUA == /\ phase = "seed"               \* witness run for CallerBeforeAttrs: the entry points that have UA cells
+          /\ cell \in {CHOOSE c \in CellsFor(ek[1], ek[2]) : TRUE : ek \in {x \in UAEPKinds : x[1].fam \in {"attrs", "adapter"}}}
 Next == /\ phase = "seed" /\ phase' = "cell"
         /\ \/ cell' \in GoCellsOver({<<[name |-> cell.ep, fam |-> cell.fam], cell.kind>>})
            \/ cell' \in LineCellsOver({<<[name |-> cell.ep, fam |-> cell.fam], cell.kind>>})
+           \/ cell' \in UACells({<<[name |-> cell.ep, fam |-> cell.fam], cell.kind>>})
 Spec == Init /\ [][Next]_<<cell, phase>>
 
 -----------------------------------------------------------------------------
 (* Export of the table: one JSON object per cell with the frame the property demands *)
 
 Row(c) == [ep |-> c.ep, fam |-> c.fam, fmt |-> c.fmt, kind |-> c.kind, inl |-> c.inl, via |-> c.via,
-           skip |-> c.skip, other |-> c.other, depth |-> c.depth, site |-> c.site, want |-> Want(c)]
+           skip |-> c.skip, other |-> c.other, depth |-> c.depth, site |-> c.site, ua |-> c.ua, want |-> Want(c)]
 
 Export(file) ==
           /\ ndJsonSerialize(file, SetToSeq({Row(c) : c \in GoCellsOver(EPKinds)})
-                                    \o SetToSeq({Row(c) : c \in LineCellsOver(EPKinds)}))
+                                    \o SetToSeq({Row(c) : c \in LineCellsOver(EPKinds)})
+                                    \o SetToSeq({Row(c) : c \in UACells(EPKinds)}))
           /\ PrintT("@@eps " \o ToJson(SetToSeq({e.name : e \in EPs})))
           /\ PrintT("@@lineeps " \o ToJson(SetToSeq(LineEPNames)))
+          /\ PrintT("@@uaeps " \o ToJson(SetToSeq(UAEPNames)))
           /\ PrintT("@@ncells " \o ToJson(NCells))
 =============================================================================
